@@ -42,6 +42,7 @@ namespace pika::threads::detail {
 
         if (current_state.state() == previous_state.state() && current_state != previous_state)
         {
+            PIKA_VERIF_POST("sas.abort", get_thread_id_data(thrd), get_thread_id_data(thrd)->verif_word(), previous_state.tag());
             // NOLINTNEXTLINE(bugprone-branch-clone)
             PIKA_LOG(info,
                 "set_active_state: thread is still active, however it was non-active since the "
@@ -54,6 +55,7 @@ namespace pika::threads::detail {
         execution::thread_schedule_hint schedulehint{
             static_cast<std::int16_t>(get_thread_id_data(thrd)->get_last_worker_thread_num())};
 
+        PIKA_VERIF_POST("sas.retry", get_thread_id_data(thrd), get_thread_id_data(thrd)->verif_word(), previous_state.tag());
         // just retry, set_state will create new thread if target is still active
         error_code ec(throwmode::lightweight);    // do not throw
         set_thread_state(thrd.noref(), newstate, newstate_ex, priority, schedulehint, true, ec);
@@ -81,6 +83,7 @@ namespace pika::threads::detail {
             return thread_state(thread_schedule_state::unknown, thread_restart_state::unknown);
         }
 
+        PIKA_VERIF_POST("sts.enter", get_thread_id_data(thrd), static_cast<int>(new_state), static_cast<int>(new_state_ex));
         thread_state previous_state;
         std::size_t k = 0;
         do {
@@ -98,6 +101,7 @@ namespace pika::threads::detail {
                     thrd, get_thread_id_data(thrd)->get_description(),
                     get_thread_state_name(new_state));
 
+                PIKA_VERIF_POST("sts.noop", get_thread_id_data(thrd), get_thread_id_data(thrd)->verif_word(), 0);
                 if (&ec != &throws) ec = make_success_code();
 
                 return thread_state(new_state, previous_state.state_ex());
@@ -125,6 +129,7 @@ namespace pika::threads::detail {
                         "set state for active thread", priority, execution::thread_schedule_hint{},
                         execution::thread_stacksize::nostack);
 
+                    PIKA_VERIF_POST("sts.helper", get_thread_id_data(thrd), get_thread_id_data(thrd)->verif_word(), previous_state.tag());
                     create_work(get_thread_id_data(thrd)->get_scheduler_base(), data, ec);
 
                     if (&ec != &throws) ec = make_success_code();
@@ -161,6 +166,7 @@ namespace pika::threads::detail {
 
                 if (&ec != &throws) ec = make_success_code();
 
+                PIKA_VERIF_POST("sts.noop", get_thread_id_data(thrd), get_thread_id_data(thrd)->verif_word(), 1);
                 // If the thread has been terminated while this set_state was
                 // pending nothing has to be done anymore.
                 return previous_state;
@@ -240,6 +246,7 @@ namespace pika::threads::detail {
             scheduler->do_some_work(schedulehint.hint);
         }
 
+        PIKA_VERIF_POST("sts.done", get_thread_id_data(thrd), get_thread_id_data(thrd)->verif_word(), 0);
         if (&ec != &throws) ec = make_success_code();
 
         return previous_state;
